@@ -1,27 +1,41 @@
 """C12 — end-to-end acceptance part: the Thrift and ThriftMux clients built by the public builders over a
 fake network with scripted servers; Lean monitors (Adapter/E2E.lean) judge the event log."""
 import e2e
+from props import c11
 
 PROPERTY = 'C12'
 COMPONENT = 'e2e12'
-QUICK = dict(gen=240)
-THOROUGH = dict(gen=6000)
-TRUSTED = ['fake network harness/fakenet.py (ordered reliable byte streams, refusal, close)',
+QUICK = dict(gen=480)
+THOROUGH = dict(gen=12000)
+TRUSTED = list(c11.TRUSTED) + ['fake network harness/fakenet.py (ordered reliable byte streams, refusal, close)',
            'scripted servers decode/encode with the Thrift library']
 ASSUMPTIONS = ['servers answer each request at most once; on a serial connection in request order']
 
 
+MUX_FOCUS = 'timeouts'      # the multiplexed hop on its own: scripts for component `tagpool` (harness/props/c11.py)
+
+
 def gen_script(rng, tier):
-    return e2e.gen_script(rng, tier)
+    """half of the scripts drive the assembled stacks (component e2e12), half the real mux transport sink on a
+    fake socket (component `tagpool`, judged by the Lean spec12: C11 + own-reply + C12 clauses)"""
+    if rng.random() < 0.5:
+        return e2e.gen_script(rng, tier)
+    if rng.random() < 0.8:
+        return c11.gen_script_focus(rng, tier, MUX_FOCUS)
+    return c11.gen_script(rng, tier)
 
 
-shrink = e2e.shrink
+def shrink(script):
+    return c11.shrink(script) if 'ops' in script else e2e.shrink(script)
 
 
 def run_script(script):
+    if 'ops' in script:
+        return c11.run_script(script)
     return e2e.run_script(script, COMPONENT)
 
 
 def nontrivial(case):
     t = set(case.get('tags', []))
-    return bool(t & {'timed-out', 'released', 'reordered', 'conn-killed', 'unreachable', 'pre-open', 'discard-sent'})
+    return bool(t & {'timed-out', 'released', 'reordered', 'conn-killed', 'unreachable', 'pre-open', 'discard-sent'}) \
+        or c11.nontrivial(case)
